@@ -2,6 +2,8 @@
 # usage: run_seeded.sh [seeded-name ...]  — applies each seeded patch to /repo, runs the property's quick check, reverts.
 cd /verif
 if [ $# -eq 0 ]; then set -- $(ls seeded); fi
+# evidence files and replays written while a seeded change is applied describe the changed tree: keep the committed ones
+EVB=$(mktemp -d /tmp/evidence-backup-XXXX); cp -r evidence $EVB/ 2>/dev/null
 for n in "$@"; do
   d=seeded/$n; p=${n%%-*}
   if ! grep -q "\"$p\"" MANIFEST.json 2>/dev/null || ! python3 -c "import json,sys; m=json.load(open('MANIFEST.json')); sys.exit(0 if any(c['property_id']=='$p' for c in m['checks']) else 1)"; then echo "$n: property $p not claimed"; continue; fi
@@ -12,4 +14,5 @@ for n in "$@"; do
   v=$(echo "$out" | grep -c '^VIOLATION')
   echo "$n: exit=$rc violations=$v $(echo "$out" | grep '^VIOLATION' | head -2 | sed 's/.*replay=//' | xargs -n1 basename 2>/dev/null | tr '\n' ' ')"
 done
+rm -rf evidence; cp -r $EVB/evidence evidence; rm -rf $EVB
 git -C /repo status --short | head -3
